@@ -666,7 +666,75 @@ func runForced(c caseT) runLog {
 	lg.Commits = append(lg.Commits, w.commits...)
 	w.mu.Unlock()
 	lg.Final = t.contents(len(c.Init))
+	// Quiet for 20 ms is not "nothing more will come" on a loaded machine (the lossy stage and the forwarder are
+	// goroutines of their own).  A subscriber that would be judged behind -- by the very comparison the trace
+	// specification makes -- is given real time to catch up before the run is written; on a tree that does lose
+	// the event this costs the wait, which is why the number of such waits per process is bounded.
+	if lg.Problem == "" {
+		for i := range subs {
+			if (subs[i].vch == nil && subs[i].cch == nil) || lg.Cancelled[i] {
+				continue
+			}
+			for deadline := time.Now().Add(4 * time.Second); behind(&lg, c, i) && longWaits < 25; {
+				if time.Now().After(deadline) {
+					longWaits++
+					break
+				}
+				if e, ok := subs[i].recv(50 * time.Millisecond); ok {
+					lg.Recv[i] = append(lg.Recv[i], e)
+				}
+			}
+		}
+	}
 	return lg
+}
+
+var longWaits int
+
+// behind: the subscriber's folded view differs from the final contents (as C03Fails of ConcTrace.tla compares
+// them), or a plain backpressured subscriber has received fewer updates than commits were made after its
+// registration
+func behind(lg *runLog, c caseT, i int) bool {
+	k := c.Kinds[i]
+	view := make([]int, len(c.Init))
+	seen := make([]bool, len(c.Init))
+	for j := range view {
+		view[j] = absent
+	}
+	updates := 0
+	for _, e := range lg.Recv[i] {
+		if e.ID >= 1 && e.ID <= len(view) {
+			view[e.ID-1], seen[e.ID-1] = e.V, true
+		}
+		if !e.Seed {
+			updates++
+		}
+	}
+	if k.Pid {
+		return false // ends with its item; what it misses is judged, not waited for
+	}
+	for j, f := range lg.Final {
+		want := f
+		if k.Inc && (f == absent || f%2 == 0) {
+			want = absent
+		}
+		if k.Uo && !seen[j] {
+			continue
+		}
+		if view[j] != want {
+			return true
+		}
+	}
+	if !k.Lossy && !k.Inc && (c.Equiv == "" || c.Equiv == "none") {
+		after := 0
+		for n := range lg.Commits {
+			if n+1 > lg.SubAfter[i] {
+				after++
+			}
+		}
+		return updates < after
+	}
+	return false
 }
 
 // ---- free-running (stress) ---------------------------------------------------------------
